@@ -25,6 +25,7 @@ import (
 	"fmt"
 	"strconv"
 	"strings"
+	"unicode/utf8"
 
 	errorsmod "cosmossdk.io/errors"
 	channeltypes "github.com/cosmos/ibc-go/v8/modules/core/04-channel/types"
@@ -165,6 +166,12 @@ func ValidateCounterpartyID(id string, protocol ProtocolID) error {
 	// which cannot encode a NUL byte.
 	if strings.IndexByte(id, 0) >= 0 {
 		return errors.New("counterparty ID cannot contain a NUL byte")
+	}
+
+	// The counterparty ID is exported in the JSON genesis, where bytes that are not
+	// valid UTF-8 do not survive: the state could not be imported back as it was.
+	if !utf8.ValidString(id) {
+		return errors.New("counterparty ID must be a valid UTF-8 string")
 	}
 
 	var valid bool
